@@ -5,7 +5,8 @@
 From Coq Require Import String List NArith Arith.
 From CMinx Require Import Base.Str Model.Lexer Model.Parser Model.Aggregator Model.Pipeline
      Model.Naming Model.Walk
-     Proofs.LexerFacts Proofs.ParserFacts Proofs.PipelineFacts Proofs.WalkFacts Proofs.GrammarFacts.
+     Proofs.LexerFacts Proofs.ParserFacts Proofs.PipelineFacts Proofs.WalkFacts Proofs.GrammarFacts
+     Gen.GrammarSource Proofs.GrammarBaseline Proofs.GrammarPins.
 Import ListNotations.
 
 (* no source character is skipped: the pieces (tokens, whitespace, comments) concatenate to the source *)
@@ -115,3 +116,18 @@ Print Assumptions C06_balanced_parens.
 Theorem C06_unbalanced_parens_rejected : forall ts, depth_ok ts 0 = false -> parse ts = None.
 Proof. exact unbalanced_parens_rejected. Qed.
 Print Assumptions C06_unbalanced_parens_rejected.
+
+(* ---- the grammar: CMake.g4 and the generated lexer/parser (serialised ATN) that run now are those
+   the model's lexer and parser were written from and validated against; the model's rule order,
+   token numbering and skip set are the grammar's (Gen/GrammarSource.v regenerated every run) ---- *)
+Theorem C06_grammar_unchanged :
+  g4_rules = base_g4_rules /\ lexer_atn = base_lexer_atn /\ parser_atn = base_parser_atn.
+Proof. exact (conj g4_rules_unchanged (conj lexer_atn_unchanged (proj2 parser_unchanged))). Qed.
+Print Assumptions C06_grammar_unchanged.
+
+Theorem C06_model_rules_are_grammar_rules :
+  map (fun r => kind_name (fst r)) rules = token_rule_names
+  /\ map (fun r => kind_id (fst r)) rules = seq 1 (length token_rule_names)
+  /\ map (fun r => kind_name (fst r)) (filter (fun r => skipped (fst r)) rules) = g4_skipped.
+Proof. exact (conj model_rules_are_grammar_rules (conj model_token_numbers model_skip_set)). Qed.
+Print Assumptions C06_model_rules_are_grammar_rules.
